@@ -1,10 +1,15 @@
 /-
-  C15 — Level statistics agree with the events that actually happened (sequential half; the
-  concurrent half is in the small-step model).
-  Property theorems only.
+  C15 — Level statistics agree with the events that actually happened.
+  Property theorems only. Sequential half: over all admissible histories (`C15_history`, `C15_ok`).
+  Concurrent half: over EVERY schedule of any number of threads (`C15_concurrent`,
+  `C15_concurrent_prefix`): the counters are 64-bit `fetch_add`s, so no update is lost; at any point
+  they equal the events so far corrected by what calls in progress recorded early / still owe, and
+  at quiescence they equal the events exactly (modulo 2^64; exactly while the sums fit).
+  An event is: an add returns; a cancel returns its order; a transaction is created.
 -/
 import PLV.Judge
 import PLV.Lemmas.Stats
+import PLV.Lemmas.ConcStats
 
 namespace PLV.C15
 open PLV
@@ -57,6 +62,48 @@ theorem C15_ok (p : Nat) (ops : List Op) (ha : AdmAllP ⟨Level.new p, 0⟩ ops)
   rw [show (⟨Level.new p, 0⟩ : Sys).lvl.stats.value = 0 from rfl, Nat.zero_add,
     show (⟨Level.new p, 0⟩ : Sys).lvl.price = p from rfl, Nat.mod_eq_of_lt hfit] at e4
   simp [C15.ok, e1, e2, e3, e4]
+
+/-! ### concurrent half -/
+
+open PLV.Conc in
+/-- at EVERY point of EVERY schedule: counters = start + events so far, corrected by the calls in
+    progress (an add that has bumped `orders_added` but not returned; a transaction whose quantity /
+    value is not recorded yet) — modulo 2^64 -/
+theorem C15_concurrent_prefix (l : Level) (g : Nat) (progs : List (List COp)) (sched : List Nat) :
+    SInv l.stats (Conc.run (Cfg.init l g progs) sched) (runEv (Cfg.init l g progs) sched) := by
+  have := (sinv_init l g progs).run sched
+  simpa [Ev.plus] using this
+
+open PLV.Conc in
+/-- **at quiescence the statistics are exactly the events**: for every level, any number of threads
+    and calls, and every schedule after which all calls have returned — `orders_added` counts the
+    adds that returned, `orders_removed` the cancels that returned their order, `quantity_executed`
+    and `value_executed` the quantities and quantity × price of the transactions created (modulo
+    2^64; the stored values are 64-bit, so they are exact whenever the sums fit) -/
+theorem C15_concurrent (l : Level) (g : Nat) (progs : List (List COp)) (sched : List Nat) (hok : StatsOk l.stats)
+    (hd : allDone (Conc.run (Cfg.init l g progs) sched) = true) :
+    let c := Conc.run (Cfg.init l g progs) sched
+    let E := runEv (Cfg.init l g progs) sched
+    c.sh.stats.added = (l.stats.added + E.adds) % W ∧ c.sh.stats.removed = (l.stats.removed + E.removed) % W ∧
+      c.sh.stats.qty = (l.stats.qty + E.qty) % W ∧ c.sh.stats.value = (l.stats.value + E.value) % W := by
+  intro c E
+  have h := C15_concurrent_prefix l g progs sched
+  obtain ⟨z1, z2, z3⟩ := done_stats hd
+  have hlt : StatsOk c.sh.stats := statsOk_run sched (c := Cfg.init l g progs) hok
+  have e1 := h.added; have e2 := h.removed; have e3 := h.qty; have e4 := h.value
+  rw [z1, Nat.add_zero] at e1
+  rw [z2, Nat.add_zero] at e3
+  rw [z3, Nat.add_zero] at e4
+  rw [Nat.mod_eq_of_lt hlt.a] at e1
+  rw [Nat.mod_eq_of_lt hlt.r] at e2
+  rw [Nat.mod_eq_of_lt hlt.q] at e3
+  rw [Nat.mod_eq_of_lt hlt.v] at e4
+  exact ⟨e1, e2, e3, e4⟩
+
+/-! non-vacuity: two threads, an add racing a match; the schedule below completes both -/
+example : Conc.allDone (Conc.run (Conc.Cfg.init ((Level.new 100).addOrder ⟨⟨false, 1⟩, 100, 5, .sell, 1, .gtc, .standard⟩) 0
+    [[.add ⟨⟨false, 2⟩, 100, 7, .sell, 2, .gtc, .standard⟩], [.matchQ 3 ⟨false, 9⟩]])
+    [1, 0, 1, 0, 1, 0, 1, 0, 1, 0, 1, 0, 1, 1, 1, 1, 1, 1]) = true := by decide
 
 /-! non-vacuity -/
 example : AdmAllP ⟨Level.new 100, 0⟩
